@@ -43,6 +43,6 @@ Proof.
   repeat match type of H with
          | bind (check ?b ?e) _ = Ok _ => destruct b; simpl in H; [|discriminate]
          end.
-  injection H as <-. simpl. auto.
+  injection H as <-. simpl. repeat split; try reflexivity; lia.
 Qed.
 Print Assumptions tie_translate.
